@@ -296,6 +296,23 @@ func (s *backendSuite) newBackend(identity string) backend.Backend {
 	return backend.NewBackend(s.kv, s.config(identity), m)
 }
 
+// leaks: at the end of a SEQUENTIAL script (no parked clients ever: every request has returned) every write batch that was
+// begun must have been brought to Commit; background goroutines (repair loop, ttl pass) get a moment to finish theirs.
+func (s *backendSuite) leaks() string {
+	if atomic.LoadInt32(&s.c.everGated) != 0 {
+		return ""
+	}
+	var n int64
+	for i := 0; i < 100; i++ {
+		n = atomic.LoadInt64(&s.c.begun) - atomic.LoadInt64(&s.c.finished)
+		if n <= 0 {
+			return ""
+		}
+		time.Sleep(5 * time.Millisecond)
+	}
+	return fmt.Sprintf("LEAKED-BATCH %d write batch(es) were begun and never committed (the in-memory engine holds its store mutex from BeginBatchWrite to Commit: such a node is wedged)", n)
+}
+
 func (s *backendSuite) close() {
 	verifhook.SetGate(nil)
 	cleanupTmp()
@@ -1157,8 +1174,12 @@ func (s *backendSuite) do(t []string) string {
 	// ----- scheduled mode -----
 	case "gated":
 		s.c.gated = pos[1] == "1"
+		if s.c.gated {
+			atomic.StoreInt32(&s.c.everGated, 1)
+		}
 		return "gated " + pos[1]
 	case "start":
+		atomic.StoreInt32(&s.c.everGated, 1)
 		cid := pos[1]
 		ch := make(chan string, 1)
 		s.c.mu.Lock()
